@@ -346,3 +346,101 @@ func VerifC06CSVRebuild() {
 	var out bytes.Buffer
 	verifAssert(p.printArgs(&out, []value{str(v1), str(v2)}) == nil && out.String() == want+"\n", "print in CSV/TSV output mode does not write the CSV encoding of its arguments")
 }
+
+// sub / gsub on a field or on $0 through the real compiler and VM: a successful substitution is an assignment to its
+// target (even when the text does not change), an unsuccessful one is not
+func VerifC06SubOnRecord() {
+	x, y := verifString(1), verifString(1)
+	verifAssume(x[0] > ' ' && x[0] < 0x7f && y[0] > ' ' && y[0] < 0x7f && x[0] != ':' && y[0] != ':')
+	line := x + "  " + y + " c"
+	progs := []string{
+		`{ n = gsub(/X+/, "&", $2) }`,
+		`{ n = sub(/X+/, "X", $2) }`,
+		`{ OFS = "-"; n = gsub(/X+/, "&", $2) }`,
+		`{ n = sub(/X+/, "&") }`,
+		`{ FS = ":"; n = sub(/X+/, "&") }`,
+		`{ n = gsub(/X+/, "&", $5) }`,
+		`{ n = gsub(/X+/, "&", $1) + gsub(/X+/, "&", $2) }`,
+		`{ OFS = "-"; n = sub(/X+/, "X", $(-1)) }`,
+	}
+	i := verifIntRange(0, len(progs)-1)
+	p, err := verifRunWithRecord(progs[i], line, nil)
+	verifAssert(err == nil, "sub/gsub on the record failed")
+	r := &verifRec{fs: " ", curFS: " ", ofs: " ", line: line, fields: verifRefSplit(line, " ")}
+	xm, ym := x == "X", y == "X"
+	want := 0
+	switch i {
+	case 0, 1:
+		if ym {
+			r.set(2, "X")
+			want = 1
+		}
+	case 2:
+		r.ofs = "-"
+		if ym {
+			r.set(2, "X")
+			want = 1
+		}
+	case 3:
+		if xm || ym {
+			r.set(0, line)
+			want = 1
+		}
+	case 4:
+		r.curFS = ":"
+		if xm || ym {
+			r.set(0, line)
+			want = 1
+		}
+	case 5:
+	case 6:
+		if xm {
+			r.set(1, "X")
+			want++
+		}
+		if ym {
+			r.set(2, "X")
+			want++
+		}
+	case 7:
+		r.ofs = "-"
+	}
+	verifReach("ran")
+	verifAssert(verifGlobal(p, "n").n == float64(want), "sub/gsub returned a count other than the number of substitutions")
+	verifSameRecord(p, r, "after sub/gsub on a field or $0")
+}
+
+// $0 is rebuilt when a field or NF is assigned, with the separator and output mode in force at that moment: a later
+// change of OFS or OUTPUTMODE does not re-encode a record that is not assigned again
+func VerifC06RebuildMoment() {
+	p := &interp{fieldSep: " ", savedFieldSep: " ", outputFieldSep: " ", recordSep: "\n", convertFormat: "%.6g", outputFormat: "%.6g"}
+	p.setLine("a b c", false)
+	v := verifString(verifIntRange(0, 2))
+	for i := 0; i < len(v); i++ {
+		verifAssume(v[i] != '\r' && v[i] != '\n')
+	}
+	first := verifIntRange(0, 2) // what is assigned: a field, NF, a field beyond NF
+	switch first {
+	case 0:
+		verifAssert(p.setField(2, v) == nil, "field assignment failed")
+	case 1:
+		verifAssert(p.setSpecial(ast.V_NF, num(2)) == nil, "NF assignment failed")
+	default:
+		verifAssert(p.setField(4, v) == nil, "field assignment failed")
+	}
+	want := []string{"a " + v + " c", "a b", "a b c " + v}[first]
+	// then the way records are joined changes
+	switch verifIntRange(0, 3) {
+	case 0:
+		verifAssert(p.setSpecial(ast.V_OUTPUTMODE, str("csv")) == nil, "OUTPUTMODE assignment failed")
+	case 1:
+		verifAssert(p.setSpecial(ast.V_OUTPUTMODE, str("tsv")) == nil, "OUTPUTMODE assignment failed")
+	case 2:
+		verifAssert(p.setSpecial(ast.V_OFS, str("-")) == nil, "OFS assignment failed")
+	default:
+		verifAssert(p.setSpecial(ast.V_OUTPUTMODE, str("csv")) == nil && p.setSpecial(ast.V_OUTPUTMODE, str("")) == nil && p.setSpecial(ast.V_OFS, str("::")) == nil, "assignment failed")
+	}
+	verifReach("read")
+	verifAssert(p.getField(0).s == want, "$0 read after OFS / OUTPUTMODE changed is not the record as it was rebuilt when the field (or NF) was assigned")
+	verifAssert(p.getSpecial(ast.V_NF).num() == float64([]int{3, 2, 4}[first]), "NF is not the number of fields")
+}
